@@ -65,7 +65,7 @@ impl OperationControl for Atom {
         #[cfg(regexml_verif)]
         crate::verif::tick();
         let in_ = &matcher.search;
-        if (position + self.len) > in_.len() {
+        if position.saturating_add(self.len) > in_.len() {
             return Box::new(std::iter::empty());
         }
         let mut in_chars = in_.iter().skip(position);
